@@ -112,6 +112,21 @@ Theorem C20_proxied_echoed_id_rejected : forall id b echoed cmd,
 Proof. exact proxy_echoed_id_rejected. Qed.
 Print Assumptions C20_proxied_echoed_id_rejected.
 
+(* Proxied mode has one connection and one opening greeting: the FIRST message
+   after the success reply decides.  If it does not match this request's id the
+   attempt fails and the broker connection is closed, whatever else (including a
+   hello with the right id) is queued behind it on the same socket. *)
+Theorem C20_proxied_first_hello_decides : forall id b rep g rest,
+  proxy_attempt_stream id b rep (g :: rest) = proxy_attempt id b rep g.
+Proof. exact proxy_first_hello_decides. Qed.
+Print Assumptions C20_proxied_first_hello_decides.
+
+Theorem C20_proxied_wrong_first_hello_refused : forall id b rep g rest,
+  hello_matches id g = false ->
+  exists e, proxy_attempt_stream id b rep (g :: rest) = mkOut (Failed e) [b].
+Proof. exact proxy_wrong_first_hello_refused. Qed.
+Print Assumptions C20_proxied_wrong_first_hello_refused.
+
 (* ---- C20_broker_failure ---------------------------------------------------- *)
 
 (* A failure reply taken while the attempt is still waiting (no reply consumed
